@@ -1,0 +1,9 @@
+//go:build verif
+
+package core
+
+// IsExperimentalForVerif exposes BuildLabel.isExperimental (experimental-directory test) to the
+// verification harness (/verif, properties C20 and C33). Not compiled without the verif tag.
+func (label BuildLabel) IsExperimentalForVerif(state *BuildState) bool {
+	return label.isExperimental(state)
+}
